@@ -103,6 +103,10 @@ func Exp(ctx *expr.Context, input system.Collection, args ...expr.Expression) (s
 	}
 	// Exp number
 	res := math.Pow(math.E, number)
+	// Validating non-finite case
+	if math.IsInf(res, 0) || math.IsNaN(res) {
+		return system.Collection{}, nil
+	}
 	result := system.MustParseDecimal(fmt.Sprintf("%v", res))
 	return system.Collection{result}, nil
 }
@@ -146,7 +150,7 @@ func Ln(ctx *expr.Context, input system.Collection, args ...expr.Expression) (sy
 	}
 	res := math.Log(number)
 	// Validating NaN case
-	if math.IsNaN(res) {
+	if math.IsNaN(res) || math.IsInf(res, 0) {
 		return system.Collection{}, nil
 	}
 	// Type conversion to system.Decimal
@@ -207,6 +211,9 @@ func Power(ctx *expr.Context, input system.Collection, args ...expr.Expression) 
 		return nil, err
 	}
 	// Validating integers case
+	if argValues.IsEmpty() {
+		return system.Collection{}, nil
+	}
 	_, ok := input[0].(system.Integer)
 	_, ok2 := argValues[0].(system.Integer)
 	if ok && ok2 {
@@ -221,6 +228,9 @@ func Power(ctx *expr.Context, input system.Collection, args ...expr.Expression) 
 			return nil, err
 		}
 		// Powering ints
+		if f := math.Pow(float64(number), float64(exp)); f > math.MaxInt32 || f < math.MinInt32 {
+			return system.Collection{}, nil // overflow results in empty
+		}
 		res := powInt32(number, exp)
 		return system.Collection{system.Integer(res)}, nil
 	}
@@ -237,7 +247,7 @@ func Power(ctx *expr.Context, input system.Collection, args ...expr.Expression) 
 	// Powering number
 	res := math.Pow(number, exp)
 	// Validating NaN case
-	if math.IsNaN(res) {
+	if math.IsNaN(res) || math.IsInf(res, 0) {
 		return system.Collection{}, nil
 	}
 	// Type conversion to system.Decimal
